@@ -57,6 +57,23 @@ def cases(tier, rng):
         for kind in KINDS:
             f = scheme(kind, rng)
             out.append((progs.hist([rename_rule(r, f) for r in rules], ops), "%s-%d" % (kind, k)))
+    # the same at the level of SOURCE TEXT (parse_rule, parse_query): names that differ only after an underscore or a digit,
+    # that extend one another, that are long
+    from lib import pretty
+    gt = progs.Gen(rng, allow_print=False, allow_not=False)     # (not(..) over a conjunction has no source syntax)
+    def text_scheme(kind):
+        if kind == "suffix": return lambda ns: {n: "$X_%d" % k for k, n in enumerate(ns)}
+        if kind == "prefix": return lambda ns: {n: "$V" + "a" * k for k, n in enumerate(ns)}
+        return lambda ns: {n: "$%s%d" % (rng.choice(["Long_name_", "x", "Q9"]), k) for k, n in enumerate(ns)}
+    nt = 60 if tier == "quick" else 1200
+    for k in range(nt):
+        rules, preds = gt.program()
+        q = gt.query(preds)
+        ops = [progs.build_text(0, progs.query_text(q))] + [progs.ask(0)] * rng.choice([5, 8])
+        def as_text(rs): return "(hist (kb-text %s) %s)" % (" ".join(S(pretty.rule(parse(r))) for r in rs), " ".join(ops))
+        out.append((as_text(rules), "original-t%d" % k))
+        for kind in ("suffix", "prefix", "mixed"):
+            out.append((as_text([rename_rule(r, text_scheme(kind)) for r in rules]), "%s-t%d" % (kind, k)))
     # witness of the known finding: join(..) turns an UNBOUND variable into text that contains its name
     wit = [rule(cplx("f", var(0, "$X"), var(0, "$Y")), bip("unify", var(0, "$Y"), fn("join", var(0, "$X"), atom("hello"))))]
     wops = [progs.build(0, [atom("f"), var(0, "$A"), var(0, "$R")]), progs.ask(0), progs.ask(0)]
@@ -74,7 +91,8 @@ RULE = ("random programs (cut, not, print, disjunctions, built-ins, recursive li
         "clause reuses the query's names $A,$B,..; the clause's own names permuted; unrelated fresh names. Relation on the "
         "implementation's own observations: same answers in the same order (resolved query compared up to renaming of unbound "
         "variables), same solve/solve_all texts and same output (variable names and ids in printed unbound variables masked). "
-        "Each run is also compared with the model. Non-trivial = the query has an answer and the program's clauses share or "
+        "The same for programs given as SOURCE TEXT (parse_rule / parse_query), renamed to names that differ only after an underscore "
+        "or digit, extend one another, or are long. Each run is also compared with the model. Non-trivial = the query has an answer and the program's clauses share or "
         "swap names under the renaming. One fixed witness of the known finding (join of an unbound variable).")
 
 def nontrivial(case, tag, result):
